@@ -341,6 +341,10 @@ def main():
     cases = list(P.corpus(tier))
     ncorpus = len(cases)
     cases += P.generate(rng, n, tier)
+    # self-test of the harness: cases that carry expectations need an oracle that reads them
+    if type(P).oracle is props.Prop.oracle and any(k in c for c in cases[:200] for k in ("ref", "expect", "expect_out", "expect_trace", "expect_status")):
+        print("harness self-test failed: %s has expectation-carrying cases but no oracle" % a.prop)
+        return 2
     for idx, c in enumerate(cases):
         c.setdefault("id", idx)
         if c.get("files") is not None:
